@@ -3,6 +3,7 @@ package chk06
 
 import (
 	"math/rand"
+	"strings"
 
 	"package-operator.run/internal/verifharness/chkfam"
 	"package-operator.run/internal/verifharness/driver"
@@ -20,10 +21,21 @@ func Run(c *vh.Ctx) {
 				Weights: scen.WeightsWith(map[string]int{"reconcile": 45, "workload": 20, "adv-delete": 3, "adv-reown": 2, "adv-edit": 3, "user-archive": 4, "user-delete": 2, "user-pause": 3, "user-unpause": 3,
 					"user-next-revision": 5, "fault": 4, "restart": 2, "user-touch-spec": 4, "adv-create": 0, "adv-relabel": 1, "adv-recreate": 1}),
 				CPs: []string{"", "None", "IfNoController"}, LagMax: []int{0, 0, 2, 4}[r.Intn(4)],
+				Sliced: r.Intn(3) == 0, SliceSeed: r.Int63(),
 			}
 		},
 		Options: func(p scen.Profile, r *rand.Rand) driver.Options {
 			o := driver.Options{Hosted: p.Hosted}
+			if p.Sliced {
+				// the ObjectSlice informer lags behind: a fresh slice is not readable for a while
+				hide := int64(8 + r.Intn(40))
+				o.CachedHideYoungKind = func(kind string) int64 {
+					if strings.HasSuffix(kind, "ObjectSlice") {
+						return hide
+					}
+					return -1
+				}
+			}
 			if p.LagMax > 0 {
 				lr := rand.New(rand.NewSource(r.Int63()))
 				o.CachedLag = func() int64 { return lr.Int63n(int64(p.LagMax) + 1) }
@@ -33,7 +45,7 @@ func Run(c *vh.Ctx) {
 		Monitors:          func() []scen.Monitor { return []scen.Monitor{&monitors.C06{}} },
 		NonTrivialCounter: "c06_status_writes",
 		Gates: []chkfam.Gate{{"c06_available_true_written", 200}, {"c06_available_false_written", 200}, {"c06_succeeded_set", 15}, {"c06_intransition_cleared", 25},
-			{"c06_archived_true_written", 30}, {"c06_passes_on_archived_set", 30}, {"c06_controllerof_complete_checked", 100}},
+			{"c06_archived_true_written", 30}, {"c06_passes_on_archived_set", 30}, {"c06_controllerof_complete_checked", 60}},
 		Rule:        "run = random rollout / handover / probe regression / pause / archival / deletion histories with generation bumps between observation and status write, a lagging manager cache (status updates then hit 409), injected API errors, lost responses, crashes and restarts; every successful status write is compared with what the same pass observed (states read or returned by its own writes), condition histories are checked online; non-trivial = the run contains status writes; distinct = distinct step logs",
 		Assumptions: []string{"the manager's cached client may serve ObjectSets up to 4 commits old in a quarter of the runs"},
 	})
